@@ -156,6 +156,8 @@ def ob_handle_offer(vc):
                 vc.check(h is None, "handle_offer.infinite_ttl_never_expires")
             else:
                 vc.check(h is not None and h.when == w.loop.now + w.offer.ttl and not h.cancelled_, "handle_offer.expires_ttl_after_this_offer")
+    vc.check_eq(w.present(w.B, w.S), before[(w.B, w.S)], "handle_offer.same_service_from_other_sources_untouched")
+    vc.check_eq(w.present(w.A, w.S1), before[(w.A, w.S1)], "handle_offer.other_services_untouched")
     w.check_step("handle_offer", before)
 
 
